@@ -77,7 +77,7 @@ class Search:
                     pops.append(n)
                 elif nm in ('push', 'push_back', 'emplace', 'emplace_back'):
                     pushes.append(n)
-                elif nm in ('empty', 'begin', 'end', 'size'):
+                elif nm in ('empty', 'begin', 'end', 'size', 'reserve', 'capacity', 'cbegin', 'cend'):
                     pass
                 else:
                     self.unknown.append('unmodelled worklist operation %s at %s' % (nm, f.nloc(n['i'])))
@@ -143,9 +143,36 @@ class Search:
         self.scan = scan
         if r[3] != (uvar,):
             self.problems.append(('scan-one', scan['i'], 'the neighbourhood scanned is not that of the removed element'))
+        self.closed_guard = None
         if self._region_of_stmt_start(scan['i']) != self.body_region:
-            self.problems.append(('scan-one', scan['i'], 'the neighbourhood scan is conditional or nested: not exactly one '
-                                                         'scan per removed element'))
+            # lazy deletion: the scan is skipped exactly when a local marker array says the removed vertex was scanned before
+            # (`if (done[u]) continue; done[u] = true;`). Whether that is sound depends on the removal order - decided by the
+            # caller together with F-HEAP for the label-correcting schema; every other conditional scan is a deviation.
+            extra = self._region_of_stmt_start(scan['i']) - self.body_region
+            atoms = []
+            for dep in extra:
+                a = f.branch_atom(dep[0])
+                if a is None:
+                    atoms = None
+                    break
+                atoms.extend(implied(self.T(a), dep[1] == 0))
+            marker = None
+            if atoms:
+                for t, pol in atoms:
+                    t0 = strip_conv(t)
+                    if t0[0] == 'un' and t0[1] == '!':
+                        t0, pol = strip_conv(t0[3]), not pol
+                    if t0[0] == 'idx' and t0[1][0] == 'var' and strip_conv(t0[2]) == uvar and not pol and \
+                            self.u.decl(t0[1][1]).get('ctype', '').startswith('std::vector<bool') and marker in (None, t0[1][1]):
+                        marker = t0[1][1]
+                    else:
+                        marker = False
+                        break
+            if marker:
+                self.closed_guard = (scan['i'], marker)
+            else:
+                self.problems.append(('scan-one', scan['i'], 'the neighbourhood scan is conditional or nested: not exactly one '
+                                                             'scan per removed element'))
         self.vvar = ('var', scan['loopvar'])
         self.scanbody = set(f.descendants(scan['body']))
         self.scan_region = self._region_of_stmt_start(scan['body'])
@@ -267,6 +294,12 @@ def check_search(m, f, schema, res_wl, res_bound):
             res_bound.sites += 1
             fail(res_bound, check, nid, msg)
     if s.problems:
+        return s
+    if getattr(s, 'closed_guard', None) and schema != 'S-LC':
+        res_wl.sites += 1
+        fail(res_wl, 'scan-one', s.closed_guard[0], 'the neighbourhood scan is conditional or nested: not exactly one scan per removed element')
+        res_bound.sites += 1
+        fail(res_bound, 'scan-one', s.closed_guard[0], 'the neighbourhood scan is conditional or nested: not exactly one scan per removed element')
         return s
     u, v, W = s.uvar, s.vvar, s.W
     res_wl.sites += 2
@@ -1099,10 +1132,30 @@ def run_searches(m, which):
             res_bound.broken('F-WL: anchor vanished: no analysed instantiation of ' + tn)
             continue
         for f in fs:
-            check_search(m, f, schema, res_wl, res_bound)
+            s = check_search(m, f, schema, res_wl, res_bound)
             if schema == 'S-LC':
+                before = len(res_heap.findings) + len(res_heap.top.findings)
+                before_inc = len(res_heap.inconclusive)
                 check_heap(m, f, res_heap)
                 check_priority_queue(m, f, res_heap)
+                cg = getattr(s, 'closed_guard', None)
+                if cg:
+                    # lazy deletion (a closed set): a vertex is scanned at its first removal only, so the distances are
+                    # right only if every vertex is final at its first removal = minimum-first removal (Dijkstra's theorem
+                    # instead of the label-correcting one). That is exactly what F-HEAP decides for this function.
+                    res_wl.sites += 1
+                    marker = f.unit.decl(cg[1])['name'] if hasattr(f, 'unit') else 'marker'
+                    hf = (res_heap.findings + res_heap.top.findings)[before:]
+                    if hf:
+                        res_wl.fail(Finding(res_wl.rule, f.display(), 'S-LC closed-set', f.nloc(cg[0]),
+                                            'S-LC conformance (closed-set): a removed vertex is scanned only while `%s[u]` is unset, so '
+                                            'improvements found after its first removal are never propagated; that is sound only '
+                                            'if removal is minimum-first, and the heap discipline of this function does not '
+                                            'establish it (%s at %s: %s)' % (marker, hf[0].rule, hf[0].loc, hf[0].message[:160])))
+                    elif len(res_heap.inconclusive) > before_inc:
+                        res_wl.broken('F-WL: %s skips vertices in a closed set and its heap discipline could not be decided' % f.display())
+                    else:
+                        res_wl.ok(dict(function=f.display(), schema=schema, check='closed set with minimum-first removal (F-HEAP clean)'), fn=f.display())
     return res_wl, res_bound, res_heap
 
 
